@@ -372,6 +372,7 @@ fn max_existing(es: &[E; NENT]) -> u32
 #[kani::unwind(5)]
 fn u_nextid()
 {
+    log::set_max_level(log::LevelFilter::Off);
     let (s1, e1) = any_entries(8);
     let (s2, e2) = any_entries(8);
     let m1 = max_existing(&s1);
@@ -410,6 +411,7 @@ fn u_nextid()
 #[kani::unwind(5)]
 fn u_count()
 {
+    log::set_max_level(log::LevelFilter::Off);
     let (s1, e1) = any_entries(8);
     let (s2, e2) = any_entries(8);
     unsafe {
@@ -443,6 +445,7 @@ fn u_count()
 #[kani::stub(std::fs::remove_file, stub_remove_file)]
 fn u_insert()
 {
+    log::set_max_level(log::LevelFilter::Off);
     insert_body(true, true);
 }
 
@@ -454,6 +457,7 @@ fn u_insert()
 #[kani::stub(std::fs::remove_file, stub_remove_file)]
 fn u_insert_content()
 {
+    log::set_max_level(log::LevelFilter::Off);
     insert_body(false, true);
 }
 
@@ -467,6 +471,7 @@ fn u_insert_content()
 #[kani::stub(std::fs::remove_file, stub_remove_file)]
 fn u_insert_faults()
 {
+    log::set_max_level(log::LevelFilter::Off);
     insert_body(true, false);
 }
 
@@ -580,6 +585,7 @@ fn insert_body(faults: bool, symbolic_content: bool)
 #[kani::stub(std::fs::remove_file, stub_remove_file)]
 fn u_insert_unordered()
 {
+    log::set_max_level(log::LevelFilter::Off);
     let c = any_ascii_content();
     let (content, len) = (c.as_str(), c.len);
     let p1: usize = sym_usize();
@@ -620,6 +626,7 @@ fn u_insert_unordered()
 #[kani::unwind(5)]
 fn u_insert_reduce()
 {
+    log::set_max_level(log::LevelFilter::Off);
     let f1: bool = sym_bool();
     let f2: bool = sym_bool();
     let f3: bool = sym_bool();
@@ -662,6 +669,7 @@ static mut G_MAX: u32 = 0; // largest existing id (0 = none)
 static mut G_MISSING: usize = 0; // statements lacking a reference (in readable files)
 static mut G_NFILES: usize = 0;
 static mut G_FINDER_FAILS: bool = false;
+static mut G_NAMED_FILES: bool = false;
 // Ghost outcome of the passes.
 static mut G_STOPPED: bool = false; // some pass was interrupted by the stop flag
 static mut G_EXHAUSTED: bool = false;
@@ -851,11 +859,35 @@ where
         let mut i = 0;
         while i < G_NFILES
         {
-            v.push(CodeFile::new(String::from(if i == 0 { "a" } else { "b" }), CodeLanguage::Rust));
+            // named (heap-allocated) paths only where the loop under test reads them (u_pr)
+            let path = if G_NAMED_FILES { String::from(if i == 0 { "a" } else { "b" }) } else { String::new() };
+            v.push(CodeFile::new(path, CodeLanguage::Rust));
             i += 1;
         }
         this.code_files = v;
         true
+    }
+}
+
+/// `Path::join` grows a PathBuf; CBMC's realloc model then trips (spuriously, and depending on
+/// unrelated details of the build) over its deallocation. The lock path is irrelevant to the model.
+fn stub_path_join<P: AsRef<std::path::Path>>(_this: &std::path::Path, _p: P) -> std::path::PathBuf
+{
+    std::path::PathBuf::new()
+}
+
+/// Contract of `Context::cache_next_reference_id`, discharged on the real function by u_ctx_write:
+/// with use_cache off nothing happens, otherwise the lock file records exactly the id it is given
+/// (whatever the stop flag or the mode say).
+fn stub_cache_next_reference_id(this: &Context, id: u32, _directory_path: &str)
+{
+    unsafe {
+        if this.config.use_cache
+        {
+            LOCK_WRITES += 1;
+            LOCK_PRESENT = true;
+            LOCK_VALUE = id;
+        }
     }
 }
 
@@ -883,8 +915,11 @@ where
 
 /// The lock file write. It is assumed to succeed (a failing lock write is the same window as the
 /// recorded finding "tokens reach the disk before the lock does").
-fn stub_fs_write<P: AsRef<std::path::Path>, C: AsRef<[u8]>>(_path: P, _contents: C) -> std::io::Result<()>
+fn stub_fs_write<P: AsRef<std::path::Path>, C: AsRef<[u8]>>(path: P, contents: C) -> std::io::Result<()>
 {
+    // the yaml text was grown by insert_str (realloc): CBMC's allocator model is brittle about freeing it
+    std::mem::forget(path);
+    std::mem::forget(contents);
     unsafe {
         LOCK_WRITES += 1;
         LOCK_PRESENT = true;
@@ -933,10 +968,10 @@ unsafe fn any_tree()
 #[kani::unwind(4)]
 #[kani::stub(process_references, stub_process_references)]
 #[kani::stub(crate::codegen::finder::CodeFinder::find, stub_finder_find)]
-#[kani::stub(serde_yaml::to_string, stub_yaml_to_string)]
-#[kani::stub(std::fs::write, stub_fs_write)]
+#[kani::stub(crate::config::context::Context::cache_next_reference_id, stub_cache_next_reference_id)]
 fn d_generate()
 {
+    log::set_max_level(log::LevelFilter::Off);
     generate_body(false);
 }
 
@@ -946,10 +981,10 @@ fn d_generate()
 #[kani::unwind(4)]
 #[kani::stub(process_references, stub_process_references)]
 #[kani::stub(crate::codegen::finder::CodeFinder::find, stub_finder_find)]
-#[kani::stub(serde_yaml::to_string, stub_yaml_to_string)]
-#[kani::stub(std::fs::write, stub_fs_write)]
+#[kani::stub(crate::config::context::Context::cache_next_reference_id, stub_cache_next_reference_id)]
 fn d_generate_kill()
 {
+    log::set_max_level(log::LevelFilter::Off);
     generate_body(true);
 }
 
@@ -1067,10 +1102,10 @@ fn generate_body(kill_window: bool)
 #[kani::unwind(4)]
 #[kani::stub(process_references, stub_process_references)]
 #[kani::stub(crate::codegen::finder::CodeFinder::find, stub_finder_find)]
-#[kani::stub(serde_yaml::to_string, stub_yaml_to_string)]
-#[kani::stub(std::fs::write, stub_fs_write)]
+#[kani::stub(crate::config::context::Context::cache_next_reference_id, stub_cache_next_reference_id)]
 fn d_check()
 {
+    log::set_max_level(log::LevelFilter::Off);
     unsafe {
         fsm::reset();
         reset_ghost();
@@ -1114,6 +1149,7 @@ fn d_check()
 #[kani::unwind(8)]
 fn u_load()
 {
+    log::set_max_level(log::LevelFilter::Off);
     // content: NBYTES symbolic ASCII bytes, optionally preceded by a UTF-8 byte order mark
     let c = any_ascii_content();
     let bom: bool = sym_bool();
@@ -1212,10 +1248,12 @@ fn stub_find_references(_l: CodeLanguage, _code: &str, _config: &Config) -> Vec<
 #[kani::stub(crate::parser::code_parser::find_references, stub_find_references)]
 fn u_pr()
 {
+    log::set_max_level(log::LevelFilter::Off);
     unsafe {
         fsm::reset();
         reset_ghost();
         G_NFILES = 2;
+        G_NAMED_FILES = true;
         G_FINDER_FAILS = false;
         fsm::SRC_PRESENT[0] = true;
         fsm::SRC_PRESENT[1] = true;
@@ -1281,4 +1319,86 @@ fn u_pr()
     }
     std::mem::forget(finder);
     std::mem::forget(ctx);
+}
+
+
+// ---------------------------------------------------------------------------------------------
+// U-insert2 : two files through the real map with the shared counter (no injected failures)
+// ---------------------------------------------------------------------------------------------
+#[kani::proof]
+#[kani::unwind(10)]
+#[kani::stub(crate::parser::code_parser::LogRefEntry::insertable_reference_string, stub_token)]
+#[kani::stub(AsyncTempFile::new, stub_tempfile_new)]
+#[kani::stub(std::fs::remove_file, stub_remove_file)]
+fn u_insert2()
+{
+    log::set_max_level(log::LevelFilter::Off);
+    let c1 = any_ascii_content();
+    let c2 = any_ascii_content();
+    let (e1s, e1) = any_entries(c1.len);
+    let (e2s, e2) = any_entries(c2.len);
+    let start: u32 = sym_u32();
+    kani::assume(start >= 1);
+    let counter = Arc::new(AtomicU32::new(start));
+    let params = Some(counter.clone());
+    let n1 = count_needing(&e1s);
+    let n2 = count_needing(&e2s);
+    unsafe {
+        fsm::reset();
+        fsm::SRC_PRESENT[0] = true;
+        fsm::SRC_PRESENT[1] = true;
+        sym_drain();
+        NIDS = 0;
+        register_expected(&c1.bytes, c1.len, &e1s, 0);
+    }
+    let r1 = InsertReferencesProcessor::map("a", c1.as_str(), &params, &e1);
+    let ids_after_1 = unsafe { NIDS };
+    let ok1 = unsafe { fsm::T_OK && (n1 == 0 || fsm::SRC_STATE[0] == fsm::REPLACED) && !fsm::ATOMICITY_BROKEN };
+    unsafe {
+        // second file: a fresh temp inode and a fresh oracle
+        fsm::T_OPEN = false;
+        fsm::T_AT = fsm::NONE;
+        register_expected(&c2.bytes, c2.len, &e2s, 1);
+    }
+    let r2 = InsertReferencesProcessor::map("b", c2.as_str(), &params, &e2);
+    unsafe {
+        assert!(!fsm::MODEL_OVERFLOW && !fsm::FOREIGN_PATH, "model bound respected");
+        let r1 = r1.unwrap();
+        let r2 = r2.unwrap();
+        kani::cover!(n1 == NENT && n2 == NENT && !r1.failure && !r2.failure, "both files fully edited");
+        kani::cover!(start as u64 + n1 as u64 == u32::MAX as u64 && n2 > 0, "range exhausted between the files");
+        assert!(!fsm::ATOMICITY_BROKEN, "C07: both files are original or complete at every operation boundary");
+        // ids across the two files: consecutive, no wrap, no id handed out twice
+        let mut k = 0;
+        while k < 2 * NENT
+        {
+            if k < NIDS
+            {
+                assert!(IDS[k] as u64 == start as u64 + k as u64, "C01: ids are unique and consecutive across files, no wrap");
+            }
+            k += 1;
+        }
+        assert!(counter.load(Ordering::Relaxed) as u64 == start as u64 + NIDS as u64, "C01/C02: the shared counter ends just above the last id handed out");
+        if !r1.failure
+        {
+            assert!(ok1 && ids_after_1 == n1 && r1.num_inserted_references == n1, "C03/C05: first file complete, count exact");
+        }
+        if !r2.failure
+        {
+            assert!(NIDS - ids_after_1 == n2 && r2.num_inserted_references == n2, "C03/C05: second file complete, count exact");
+            if n2 > 0
+            {
+                assert!(fsm::SRC_STATE[1] == fsm::REPLACED && fsm::T_OK && fsm::T_ACC == fsm::EXPECT_LEN, "C03: second file is original plus tokens");
+            }
+        }
+        // a failure can only be exhaustion (no faults are injected here)
+        if r1.failure || r2.failure
+        {
+            assert!(start as u64 + (n1 + n2) as u64 > u32::MAX as u64, "C01: without I/O faults only an exhausted id range makes the pass fail");
+        }
+    }
+    std::mem::forget(e1);
+    std::mem::forget(e2);
+    std::mem::forget(counter);
+    std::mem::forget(params);
 }
